@@ -252,6 +252,26 @@ def check_form(item, part, envs_by_type_r, envs_by_type_c):
                 part.count("model_undefined")
             en = run_op("energy_norm", lambda: ufl.energy_norm(F, W.k))
             compare("energy_norm", en, form_values(F, ebt, key_alias={ukey: kkey, vkey: kkey}))
+            # operator results as operator inputs (label-preserving rebuilds of variables, renumbered arguments):
+            # G = a - action(a, k) is affine, H = a + adjoint(a) is bilinear; decomposed by the model like any F
+            for gname, G in (
+                ("a-action(a,k)", (F - act) if isinstance(act, ufl.Form) else None),
+                ("a+adjoint(a)", (F + adj) if isinstance(adj, ufl.Form) else None),
+            ):
+                if G is None:
+                    continue
+                try:
+                    Guv = form_values(G, ebt)
+                    Gu0 = form_values(G, ebt, {**Z(vkey)})
+                    G0v = form_values(G, ebt, {**Z(ukey)})
+                    G00 = form_values(G, ebt, {**Z(ukey), **Z(vkey)})
+                except (Ambiguous, Undefined):
+                    part.count("model_undefined")
+                    continue
+                ga = combine((1, Guv), (-1, Gu0), (-1, G0v), (1, G00))
+                gl = combine((1, G0v), (-1, G00))
+                compare(f"lhs[{gname}]", run_op("lhs2", lambda G=G: ufl.lhs(G)), ga)
+                compare(f"rhs[{gname}]", run_op("rhs2", lambda G=G: ufl.rhs(G)), combine((-1, gl)))
         if arities == {1} and nargs == 1:
             kkey = ("coef", W.k.count())
             act = run_op("action1", lambda: ufl.action(F, W.k))
